@@ -100,7 +100,7 @@ PROPS = {
     "C20": dict(kind="gen", files=["P_C20.v"], theorems=[], oracle=O.o_c20, known=[]),
 }
 
-OK_VERDICTS = {"ok", "ok-err", "ok-diverges", "ok-crash", "skip-order"}
+OK_VERDICTS = {"ok", "ok-proj", "ok-err", "ok-diverges", "ok-crash", "skip-order"}
 
 
 def coq_obligations(ctx, spec):
